@@ -16,10 +16,10 @@ EXTENDS Tok, Naturals, FiniteSets
 Identity(n) == [k \in 1..n |-> k]
 Prefix(s, k) == SubSeq(s, 1, IF k < Len(s) THEN k ELSE Len(s))
 Distinct(s) == Cardinality({s[k] : k \in DOMAIN s}) = Len(s)
-\* positions p (ascending) of start..n with Test(p); written without recursion (libraries have thousands of rows)
-SelectPos(n, Test(_), start) ==
-  LET S == {p \in start..n : Test(p)}
-  IN [k \in 1..Cardinality(S) |-> CHOOSE p \in S : Cardinality({q \in S : q < p}) = k - 1]
+\* positions p (ascending) of start..n with Test(p); no recursion and no quadratic ranking: libraries have thousands of rows
+\* (SetToSortSeq of the CommunityModules is evaluated by a Java override)
+SX == INSTANCE SequencesExt
+SelectPos(n, Test(_), start) == SX!SetToSortSeq({p \in start..n : Test(p)}, LAMBDA a, b : a < b)
 
 \* the rows that must be evaluated: the first nPrior of the evaluation order (0 = all)
 Evaluated(order, nPrior) == IF nPrior = 0 THEN order ELSE Prefix(order, nPrior)
